@@ -40,9 +40,12 @@ def prepare(slot):
     return d
 
 
+DIR = "seeded"
+
+
 def run_one(slot, sid, props):
     d = os.path.join(SM, "j%d" % slot)
-    patch = os.path.join(VERIF, "seeded", sid, "patch.diff")
+    patch = os.path.join(VERIF, DIR, sid, "patch.diff")
     r = sh("git -C %s/repo apply %s" % (d, patch))
     if r.returncode != 0:
         return {p: "patch-does-not-apply" for p in props}
@@ -56,7 +59,7 @@ def run_one(slot, sid, props):
             det = [ln for ln in r.stdout.split("\n") if ln.strip().startswith("violation-detail")]
             out[p + ":detail"] = det[0][:300] if det else ""
         elif re.search(r"^OK property=", r.stdout, re.M):
-            out[p] = "missed"
+            out[p] = "missed" if DIR == "seeded" else "OK"
         else:
             out[p] = "check-error: " + r.stdout[-300:]
     sh("git -C %s/repo checkout -q -- . && git -C %s/repo clean -fdq" % (d, d))
@@ -68,14 +71,18 @@ def main():
     ap.add_argument("--jobs", type=int, default=4)
     ap.add_argument("--only")
     ap.add_argument("--extra", action="store_true")
+    ap.add_argument("--dir", default="seeded", help="seeded (changes that break a property) or harmless "
+                    "(behaviour-preserving rewrites: every listed check is expected to stay OK)")
     a = ap.parse_args()
-    ids = sorted(x for x in os.listdir(os.path.join(VERIF, "seeded")) if os.path.isdir(os.path.join(VERIF, "seeded", x)))
+    global DIR
+    DIR = a.dir
+    ids = sorted(x for x in os.listdir(os.path.join(VERIF, DIR)) if os.path.isdir(os.path.join(VERIF, DIR, x)))
     if a.only:
         ids = [i for i in ids if i in a.only.split(",")]
     have = {f[:-3] for f in os.listdir(os.path.join(VERIF, "harness", "props")) if re.match(r"C\d+\.py$", f)}
     for s in range(a.jobs):
         prepare(s)
-    mpath = os.path.join(VERIF, "seeded", "MATRIX.json")
+    mpath = os.path.join(VERIF, DIR, "MATRIX.json")
     matrix = json.load(open(mpath)) if os.path.exists(mpath) else {}
     chunks = [ids[i::a.jobs] for i in range(a.jobs)]
 
@@ -83,7 +90,10 @@ def main():
         res = {}
         for sid in chunks[slot]:
             prop = sid.split("-")[0]
-            props = [p for p in [prop] + (EXTRA.get(sid, []) if a.extra else []) if p in have]
+            if DIR != "seeded":
+                props = json.load(open(os.path.join(VERIF, DIR, sid, "meta.json")))["props"]
+            else:
+                props = [p for p in [prop] + (EXTRA.get(sid, []) if a.extra else []) if p in have]
             if not props:
                 res[sid] = {prop: "no-check-yet"}
                 continue
@@ -96,7 +106,7 @@ def main():
                 matrix.setdefault(sid, {}).update(r)
     json.dump(matrix, open(mpath, "w"), indent=1, sort_keys=True)
     for sid in matrix:
-        mp = os.path.join(VERIF, "seeded", sid, "meta.json")
+        mp = os.path.join(VERIF, DIR, sid, "meta.json")
         if os.path.exists(mp):
             m = json.load(open(mp))
             m["detected_by"] = sorted(k for k, v in matrix[sid].items() if ":" not in k and str(v).startswith("VIOLATION"))
